@@ -1149,6 +1149,14 @@ class MayRaise:
             bt = self.r.strip_opt(self.r.type_of(e.value, fi))
             if bt in (prim("bytes"), prim("bytearray"), prim("memoryview"), prim("byteslike")):
                 is_byte = True
+            # struct.unpack("<one integer code>", x)[0]: the range of that code
+            if isinstance(e.value, ast.Call) and norm(e.value.func) == "struct.unpack" and e.value.args and isinstance(e.value.args[0], ast.Constant) and \
+                    isinstance(e.value.args[0].value, str) and const_int(e.slice) == 0:
+                code = e.value.args[0].value.lstrip("@=<>!")
+                rng = {"B": (0, 255), "b": (-128, 127), "H": (0, 65535), "h": (-32768, 32767), "I": (0, 2**32 - 1), "i": (-2**31, 2**31 - 1),
+                       "Q": (0, 2**64 - 1), "q": (-2**63, 2**63 - 1), "?": (0, 1)}.get(code)
+                if rng is not None:
+                    lo, hi = rng
         if isinstance(e, ast.Name):
             for f in facts:
                 if f[0] == "ELEM" and f[1] == e.id:
@@ -1238,6 +1246,8 @@ class MayRaise:
                 r = (al * bl, ah * bh)
             elif isinstance(op, ast.FloorDiv) and al >= 0 and bl >= 1 and bl == bh:
                 r = (al // bl, ah if ah == INF else ah // bl)
+            elif isinstance(op, ast.Mod) and bl >= 1 and bh != INF:
+                r = (0, bh - 1)          # x % m with m > 0 lies in [0, m-1] for every int x
             else:
                 r = (-INF, INF)
             return (max(r[0], lo), min(r[1], hi))
@@ -1320,11 +1330,26 @@ class MayRaise:
             if sum(1 for g in grow if any(y is g for y in ast.walk(w))) != 1:
                 return None
             stores = [x for x in ast.walk(w) if isinstance(x, ast.Name) and x.id == n and isinstance(x.ctx, ast.Store)]
-            shifts = [x for x in w.body if isinstance(x, ast.AugAssign) and isinstance(x.target, ast.Name) and x.target.id == n and isinstance(x.op, ast.RShift)
-                      and (const_int(x.value) or 0) >= 1]
+            def shift_of(x) -> Optional[int]:
+                """k when statement x replaces n by n >> k (spelled >>=, //= 2**k, n = n >> k, n = n // 2**k)"""
+                op = val = None
+                if isinstance(x, ast.AugAssign) and isinstance(x.target, ast.Name) and x.target.id == n:
+                    op, val = x.op, x.value
+                elif isinstance(x, ast.Assign) and len(x.targets) == 1 and isinstance(x.targets[0], ast.Name) and x.targets[0].id == n and isinstance(x.value, ast.BinOp) \
+                        and isinstance(x.value.left, ast.Name) and x.value.left.id == n:
+                    op, val = x.value.op, x.value.right
+                c = const_int(val) if val is not None else None
+                if c is None:
+                    return None
+                if isinstance(op, ast.RShift) and c >= 1:
+                    return c
+                if isinstance(op, ast.FloorDiv) and c >= 2 and c & (c - 1) == 0:
+                    return c.bit_length() - 1
+                return None
+            shifts = [x for x in w.body if shift_of(x) is not None]
             if len(stores) != 1 or len(shifts) != 1 or any(isinstance(x, (ast.Continue,)) for x in ast.walk(w)):
                 return None
-            k = const_int(shifts[0].value)
+            k = shift_of(shifts[0])
             # the value n has when the loop is entered
             outside = [x for x in walk_no_nested(fi.node) if isinstance(x, ast.Name) and x.id == n and isinstance(x.ctx, ast.Store) and x is not stores[0]]
             if n in fi.params() and not outside:
@@ -2068,7 +2093,8 @@ class MayRaise:
             return ok, f"`{x}[:1]` has one octet iff `{x}` is non-empty" + ("" if ok else " (not established)")
         if isinstance(lo, ast.Name) and isinstance(hi, ast.BinOp) and isinstance(hi.op, ast.Add) and norm(hi.left) == lo.id and const_int(hi.right) == 1:
             i = lo.id
-            have_len = ("LEN>=", x, f"{i} + 1") in facts or ("LTLEN", i, x) in facts or ("IDX", i, x) in facts
+            have_len = ("LEN>=", x, f"{i} + 1") in facts or ("LTLEN", i, x) in facts or ("IDX", i, x) in facts or \
+                any(f[0] == "LT" and f[1] == i and (("LEN>=", x, f[2]) in facts or ("ISLEN", f[2], x) in facts) for f in facts)       # i < V <= len(x)
             nonneg = ("GE0", i) in facts or any(f[0] == "LE" and f[2] == i and _const_ge(f[1], 0) for f in facts)
             return (have_len and nonneg), f"needs len({x}) >= {i}+1 ({'ok' if have_len else 'missing'}) and {i} >= 0 ({'ok' if nonneg else 'missing'})"
         return False, "slice bounds not recognised"
